@@ -38,6 +38,7 @@ type bop struct {
 
 type bitem struct {
 	kv bkv
+	it *biter // the iterator that produced the item (nil for Txn.Get)
 }
 
 type biter struct {
@@ -47,6 +48,9 @@ type biter struct {
 	order   []bkv // ascending order snapshot
 	pos     int
 	valid   bool
+	// Item.Key() of an iterator item is only valid until the next Next(): the
+	// returned slice aliases this buffer, which the next Key() overwrites
+	keybuf []value
 }
 
 type bbatch struct {
@@ -238,7 +242,7 @@ func init() {
 		for _, kv := range t.snapshot() {
 			if bytesEq(kv.key, key) {
 				cell := badgerNew(fr, "Item")
-				bitems[cell] = &bitem{kv}
+				bitems[cell] = &bitem{kv: kv}
 				return tuple{cell, iface{}}
 			}
 		}
@@ -260,7 +264,17 @@ func init() {
 		t.pending = append(t.pending, bop{del: true, key: copyBytes(a[1].([]value))})
 		return iface{}
 	})
-	ext("(*"+p+"Item).Key", func(fr *frame, a []value) value { return copyBytes(bitems[a[0].(*value)].kv.key) })
+	ext("(*"+p+"Item).Key", func(fr *frame, a []value) value {
+		item := bitems[a[0].(*value)]
+		if item.it == nil {
+			return copyBytes(item.kv.key)
+		}
+		if len(item.it.keybuf) != len(item.kv.key) {
+			item.it.keybuf = make([]value, len(item.kv.key))
+		}
+		copy(item.it.keybuf, item.kv.key)
+		return item.it.keybuf
+	})
 	ext("(*"+p+"Item).KeyCopy", func(fr *frame, a []value) value { return copyBytes(bitems[a[0].(*value)].kv.key) })
 	ext("(*"+p+"Item).Value", func(fr *frame, a []value) value {
 		it := bitems[a[0].(*value)]
@@ -354,7 +368,7 @@ func init() {
 			return (*value)(nil)
 		}
 		cell := badgerNew(fr, "Item")
-		bitems[cell] = &bitem{it.order[it.pos]}
+		bitems[cell] = &bitem{kv: it.order[it.pos], it: it}
 		return cell
 	})
 	ext("(*"+p+"Iterator).Close", func(fr *frame, a []value) value { return nil })
